@@ -519,3 +519,48 @@ pub fn run(tier: &str) -> ! {
     ];
     rep.finish()
 }
+
+
+/// Replays one case of any of the C10 parts (recognised by its keys).
+pub fn replay_case(c: &Value, acc: &mut Acc) {
+    if c.get("scratch_filled_with").is_some() {
+        let cfg = Cfg::from_tag(c["cfg"].as_str().unwrap_or("INpx"));
+        let hay = Text::new(&common::parse_cps(&c["haystack"]));
+        let needle = Text::new(&common::parse_cps(&c["needle"]));
+        let algo = Algo::from_name(c["algo"].as_str().unwrap_or("fuzzy")).unwrap_or(Algo::Fuzzy);
+        let indices = c["indices_variant"].as_bool().unwrap_or(true);
+        let byte = u8::from_str_radix(c["scratch_filled_with"].as_str().unwrap_or("0xff").trim_start_matches("0x"), 16).unwrap_or(0xff);
+        let rep = c["rep"].as_str().unwrap_or("UU");
+        let (ha, na) = (rep.as_bytes()[0] == b'A', rep.as_bytes()[1] == b'A');
+        let run = |m: &mut Matcher| -> (Option<u16>, Vec<u32>) {
+            let mut idx = Vec::new();
+            let s = if indices { call_indices(m, algo, hay.view(ha), needle.view(na), &mut idx) } else { call_match(m, algo, hay.view(ha), needle.view(na)) };
+            (s, idx)
+        };
+        let want = run(&mut Matcher::new(cfg.to_config()));
+        let mut dirty = Matcher::new(cfg.to_config());
+        dirty.verif_fill_scratch(byte);
+        let got = run(&mut dirty);
+        if got != want {
+            acc.violation("C10/stale_scratch_read/replay", "the result depends on what the scratch memory held before the call", || json!({"fresh": {"score": want.0, "indices": want.1}, "after_fill": {"score": got.0, "indices": got.1}}));
+        }
+    } else if c.get("haystack_len").is_some() && c.get("view").is_some() || c.get("char_type").is_some() {
+        let h = c["haystack_len"].as_u64().unwrap_or(1) as usize;
+        let n = c["needle_len"].as_u64().unwrap_or(1) as usize;
+        let mut m = Matcher::default();
+        let uni: Vec<char> = vec!['a'; h];
+        let asc: Vec<u8> = vec![b'a'; h];
+        check_extents(acc, "char", h, n, 4, m.verif_alloc_extents_unicode(&uni, n));
+        check_extents(acc, "ascii", h, n, 1, m.verif_alloc_extents_ascii(&asc, n));
+    } else if c.get("cfg").is_some() && c.get("haystack").is_some() {
+        let cfg = Cfg::from_tag(c["cfg"].as_str().unwrap_or("INpx"));
+        let hay = Text::new(&common::parse_cps(&c["haystack"]));
+        let needle = Text::new(&common::parse_cps(&c["needle"]));
+        let view = crate::refm::HayView::new(&hay.chars, cfg);
+        let mut ctx = Ctx { matcher: Matcher::new(cfg.to_config()), idx: Vec::new(), idx2: Vec::new() };
+        let case = Case { cfg, hay: &hay, view: &view, needle: &needle };
+        totality_case(&case, &mut ctx, acc);
+    } else {
+        acc.count("case kinds not replayed individually (large families, call sequences): re-run the check", 1);
+    }
+}
